@@ -114,18 +114,19 @@ end counting
 
 /-! ## TwoSourceAggregator -/
 
-/-- group sources of the documents without the field, in document order -/
-def twoK1 (evs : List Ev) : List Nat := evs.filterMap fun ev => if ev.f.isNone then ev.g else none
+/-- (tally bin, group source) of the documents without the field, in document order -/
+def twoK1 (pb : Bool) (evs : List Ev) : List (Nat × Nat) :=
+  evs.filterMap fun ev => if ev.f.isNone then ev.g.map fun g => (missingBin pb ev.bin, g) else none
 
 /-- (bin, group source, field source) of the documents that carry both, in document order -/
 def twoK2 (evs : List Ev) : List (Nat × Nat × Nat) :=
   evs.filterMap fun ev => match ev.g, ev.f with | some g, some f => some (ev.bin, g, f) | _, _ => none
 
 /-- the three tallies after `Next` over all documents -/
-theorem twoStep_fold (evs : List Ev) (st : TwoSt) :
-    evs.foldl twoStep st =
+theorem twoStep_fold (pb : Bool) (evs : List Ev) (st : TwoSt) :
+    evs.foldl (twoStep pb) st =
       ⟨st.groupNotExists + (evs.filter fun ev => ev.g.isNone && ev.f.isSome).length,
-       countMap st.groupByNotExists (twoK1 evs), countMap st.countBySource (twoK2 evs)⟩ := by
+       countMap st.groupByNotExists (twoK1 pb evs), countMap st.countBySource (twoK2 evs)⟩ := by
   unfold twoK1 twoK2
   induction evs generalizing st with
   | nil => simp [countMap]
@@ -201,9 +202,9 @@ theorem expand_map {κ β : Type} (h : κ → β) (m : List (κ × Nat)) :
 def twoDocs (m g : Nat) (evs : List Ev) : List Ev :=
   evs.filter fun ev => ev.bin = m ∧ ev.g = some g ∧ ev.f.isSome
 
-/-- the documents of group source `g` without the field -/
-def twoMissing (g : Nat) (evs : List Ev) : Nat :=
-  (evs.filter fun ev => ev.g = some g ∧ ev.f.isNone).length
+/-- the documents of group source `g` without the field that are tallied under bin `m` -/
+def twoMissing (pb : Bool) (m g : Nat) (evs : List Ev) : Nat :=
+  (evs.filter fun ev => missingBin pb ev.bin = m ∧ ev.g = some g ∧ ev.f.isNone).length
 
 theorem twoKeys_filter (fv : Nat → Int) (m g : Nat) (evs : List Ev) :
     ((twoK2 evs).filter fun key => key.1 = m ∧ key.2.1 = g).map (fun key => fv key.2.2) = evVals fv (twoDocs m g evs) := by
@@ -219,18 +220,18 @@ theorem twoKeys_filter (fv : Nat → Int) (m g : Nat) (evs : List Ev) :
     · rename_i g' f'
       by_cases h1 : ev.bin = m <;> by_cases h2 : g' = g <;> simp [h1, h2, ih, List.filterMap_cons, hf]
 
-theorem missingKeys_filter (g : Nat) (evs : List Ev) :
-    ((twoK1 evs).filter fun k => k = g).length = twoMissing g evs := by
-  unfold twoK1
+theorem missingKeys_filter (pb : Bool) (m g : Nat) (evs : List Ev) :
+    ((twoK1 pb evs).filter fun k => k = (m, g)).length = twoMissing pb m g evs := by
+  unfold twoK1 twoMissing
   induction evs with
   | nil => rfl
   | cons ev evs ih =>
     cases hg : ev.g <;> cases hf : ev.f <;>
-      simp [List.filterMap_cons, hg, hf, twoMissing, List.filter_cons] at ih ⊢
+      simp [List.filterMap_cons, hg, hf, List.filter_cons] at ih ⊢
     · exact ih
     · exact ih
     · rename_i g'
-      by_cases h2 : g' = g <;> simp [h2, ih]
+      by_cases h1 : missingBin pb ev.bin = m <;> by_cases h2 : g' = g <;> simp [h1, h2, ih]
     · exact ih
 
 end SV.Agg
